@@ -32,8 +32,8 @@ pub fn meta(prop: &str) -> Option<Meta> {
     };
     match prop {
         "C01" => m("exploration", "random fork histories (3 networks, 3 delivery paths) queried after every step for every address of the case's universe, all pages followed with page sizes 1..7 and 1000; a query is non-trivial if the ledger or the answer is non-empty; distinct = fingerprint of (tree shape with difficulties, threshold, network, address kind, answer size, tip)", 35.0, 600.0),
-        "C02" => m("exploration", "all rooted trees with <= 5 non-root blocks x arrival orders x difficulty palettes (enumerated) plus random histories; a state is non-trivial if the tree has more than one leaf; distinct = fingerprint of (pre-order shape with difficulties, threshold, network)", 35.0, 600.0),
-        "C03" => m("exploration", "every ingestion opportunity of enumerated small trees and random histories is judged by the stability rule in both directions; distinct = fingerprint of (tree shape with difficulties, threshold, network, advanced or not)", 35.0, 600.0),
+        "C02" => m("exploration", "every parent vector (tree + arrival order) with <= 4 (quick) / 5 (thorough) non-root blocks x {1,2,3}^n difficulties x thresholds 1..3 on three networks (enumerated; exhaustive=true when the family was completed in the budget), trees constructed so that sibling subtrees tie on accumulated difficulty with light side branches of any length, plus random histories; a state is non-trivial if the tree has more than one leaf; distinct = fingerprint of (pre-order shape with difficulties, threshold, network)", 35.0, 600.0),
+        "C03" => m("exploration", "every ingestion opportunity of enumerated small trees, constructed tie trees, deep chains (420-1600 blocks, heavy anchor so that only the depth escape can fire, competitor branches) and random histories is judged by the stability rule in both directions; distinct = fingerprint of (tree shape with difficulties, threshold, network, advanced or not)", 35.0, 600.0),
         "C04" => m("exploration", "every (state, address, c) with c in 1..=best-chain length+2; distinct = fingerprint of (tree shape, threshold, network, c, address kind, answer size)", 35.0, 600.0),
         "C05" => m("exploration", "get_balance vs sum over all pages of get_utxos for every (state, address, c in {none, 0..len+2, u32::MAX}) incl. malformed and foreign-network addresses; non-trivial if either side is non-zero or both are errors; distinct = fingerprint of (tree shape, threshold, network, c, address kind, sum)", 35.0, 600.0),
         "C15" => m("exploration", "fee-paying histories (legacy and witness sizes, forks with different transactions, reorgs, empty blocks, eager/lazy, upgrades), queried after every step; an answer is non-trivial if non-empty; distinct = distinct 101-value answers checked against own nearest-rank over the admissible populations", 35.0, 600.0),
